@@ -4,6 +4,11 @@ import json, subprocess
 
 # id -> (level, engine, technique, level text, level note, design ref)
 CHECKS = {
+ "C01": ("exploration", "enum",
+   "bounded exhaustive enumeration of pipeline structures x flags x error pipelines x rule sources with lazily enumerated step-outcome decision trees through the three assembled real services against a reference decision function",
+   "Every pipeline structure of the alphabet (1-2 authenticators, 0-2 authorizer/contextualizer steps, 0-1 finalizer; conditions absent/true/false/failing; continue-on-error and fallback flags), every error pipeline built from the real error handler mechanisms and every reachable vector of step outcomes incl. panics is executed through the real decision and proxy handler chains and the real Envoy gRPC server; a positive answer or any upstream hit without the reference allowing it, or an executed-step trace different from the effective pipeline, is a violation.",
+   "Mechanisms are scripted (their outcome is the explorer's choice); everything around them is real. The statement is one-directional, so denials of completed pipelines are counted, not judged.",
+   "DESIGN.md 4 C01"),
  "C02": ("exploration", "enum",
    "bounded exhaustive enumeration of expression sets x insertion orders x backtracking flags x condition truth tables x request paths against a reference matcher (real radixtree and real rule factory/repository)",
    "Every ordered pair/triple of path expressions from a structural alphabet, every flag and condition assignment and every request path up to 3 segments is looked up in the real tree and in the real repository and compared with an executable reference of the documented specificity/backtracking rules; the space is enumerated completely within the stated alphabet.",
